@@ -504,7 +504,7 @@ impl Check for C16 {
         }
     }
     fn rule(&self) -> String {
-        "(1) structure: the C12 definition family (ordered tuples of <=2, thorough 3, of 18 documented field kinds x 8 tails incl. nested and hidden commands and command paths that differ only in dash versus nesting): render_markdown / render_html / render_manpage return, contain exactly one section per reachable command level, each section mentions every visible flag/argument/command name of that level and no hidden or alias name, --help, and --version exactly when that level (not the root, not a sibling) configures a version; (2) text: 8 text slots (also empty and blank texts) (item help, descr, header+footer, group title, positional help, command help + inner descr, metavariable, application name) with EVERY concatenation of <=3 (thorough 4) fragments from 22 roff/HTML/markdown metacharacter fragments (code-line start, fence start, .x 'x \\fB \\ - <zz> </dd> & > newline+. newline+' newline+space blank-line [x](y) ` * _ # é word): HTML scanned by an independent tag lexer (only the renderer's own tags, perfectly nested, no raw < or > from user text), manpage scanned by an independent roff lexer (every line starting with . or ' is one of .TH .SH .SS .TP .PP .nf .fi .ie .el; only the escapes \\fB \\fI \\fR \\fP \\- \\\\ \\& \\*(Aq '\\ '; decoding gives the help lines back and keeps the fixed neighbouring items); evaluation = one rendered document".into()
+        "(1) structure: the C12 definition family (ordered tuples of <=2, thorough 3, of 18 documented field kinds x 8 tails incl. nested and hidden commands and command paths that differ only in dash versus nesting): render_markdown / render_html / render_manpage return, contain exactly one section per reachable command level, each section mentions every visible flag/argument/command name of that level and no hidden or alias name, --help, and --version exactly when that level (not the root, not a sibling) configures a version; (2) text: 8 text slots (also empty and blank texts) (item help, descr, header+footer, group title, positional help, command help + inner descr, metavariable, application name) with EVERY concatenation of <=3 (thorough 4) fragments from 22 roff/HTML/markdown metacharacter fragments (code-line start, fence start, .x 'x \\fB \\ - <zz> </dd> & > newline+. newline+' newline+space blank-line [x](y) ` * _ # é word): HTML scanned by an independent tag lexer (only the renderer's own tags, perfectly nested, no raw < or > from user text), manpage scanned by an independent roff lexer (every line starting with . or ' is one of .TH .SH .SS .TP .PP .nf .fi .ie .el; only the escapes \\fB \\fI \\fR \\fP \\- \\\\ \\& \\*(Aq '\\ '; decoding gives the help lines back and keeps the fixed neighbouring items); evaluation = one rendered document; (3) styled: the six document slots holding every sequence of <=3 (thorough 5) separately styled fragments (text, literal, emphasis, invalid, nested document), same lexers".into()
     }
     fn bounds(&self, tier: Tier) -> Value {
         json!({"fragments_per_string": tier.pick(3, 4), "slots": 8, "structure_fields": tier.pick(2, 3)})
